@@ -93,14 +93,49 @@ Proof.
   unfold Formulas_gen.JBessel_spectral_density, jb_density, O. open_gen.
   rewrite (fmax_nmax ora). open_model. destruct (Rltb k _); reflexivity.
 Qed.
+Lemma HyperSpherical_spectral_density_tie (d : Z) l k :
+  Formulas_gen.HyperSpherical_spectral_density O l (IZR d) k = hyp_density O d l k.
+Proof.
+  unfold Formulas_gen.HyperSpherical_spectral_density, hyp_density, O. open_gen. open_model.
+  destruct (Rleb _ _); reflexivity.
+Qed.
+
+Lemma tpl_exp_spec_dens_base_tie (d : Z) l h k :
+  Formulas_gen.tpl_exp_spec_dens_base O k (IZR d) l h = tplexp0 O d l h k.
+Proof. unfold Formulas_gen.tpl_exp_spec_dens_base, tplexp0, O. open_gen. open_model. reflexivity. Qed.
+
+Lemma tpl_gau_spec_dens_base_tie (d : Z) l h k :
+  Formulas_gen.tpl_gau_spec_dens_base O k (IZR d) l h = tplgau0 O d l h k.
+Proof.
+  unfold Formulas_gen.tpl_gau_spec_dens_base, tplgau0, tplgau_series, O. open_gen. open_model.
+  cbn [fold_left fst]. rsimp. destruct (Rltb _ _); reflexivity.
+Qed.
+
+(* the source repeats the len_low = 0 body inside the function; the model calls the base function *)
+Lemma tpl_exp_spec_dens_tie (d : Z) l h low k :
+  Formulas_gen.tpl_exp_spec_dens O k (IZR d) l h low = tplexp_density O d l h low k.
+Proof.
+  unfold tplexp_density, tpl_combine. rewrite <- !tpl_exp_spec_dens_base_tie.
+  unfold Formulas_gen.tpl_exp_spec_dens, Formulas_gen.tpl_exp_spec_dens_base, O. open_gen. open_model. reflexivity.
+Qed.
+Lemma tpl_gau_spec_dens_tie (d : Z) l h low k :
+  Formulas_gen.tpl_gau_spec_dens O k (IZR d) l h low = tplgau_density O d l h low k.
+Proof.
+  unfold tplgau_density, tpl_combine. rewrite <- !tpl_gau_spec_dens_base_tie.
+  unfold Formulas_gen.tpl_gau_spec_dens, Formulas_gen.tpl_gau_spec_dens_base, O. open_gen. open_model. reflexivity.
+Qed.
+(* the classes' argument plumbing: (k, dim, len_rescaled, hurst, len_low_rescaled) *)
+Lemma TPLGaussian_spectral_density_tie (d : Z) l h lowr k :
+  Formulas_gen.TPLGaussian_spectral_density O (IZR d) l h lowr k = tplgau_density O d l h lowr k.
+Proof. unfold Formulas_gen.TPLGaussian_spectral_density. apply tpl_gau_spec_dens_tie. Qed.
+Lemma TPLExponential_spectral_density_tie (d : Z) l h lowr k :
+  Formulas_gen.TPLExponential_spectral_density O (IZR d) l h lowr k = tplexp_density O d l h lowr k.
+Proof. unfold Formulas_gen.TPLExponential_spectral_density. apply tpl_exp_spec_dens_tie. Qed.
 End Tie.
 
 (* ====================================================================== class level *)
-(* what the SOURCE says now for a class: the generated formula applied to len_rescaled = len_scale / rescale and
-   the dimension; HyperSpherical and the truncated power laws are not translated (AugAssign / recursion / for loop):
-   for them the hand model stands in, tied by the float correspondence only *)
-Definition translated (m : cls (T:=R)) : Prop :=
-  match m with HyperSpherical | TPLGaussian _ _ | TPLExponential _ _ => False | _ => True end.
+(* what the SOURCE says now for a class: the generated formula applied to len_rescaled = len_scale / rescale, the
+   dimension and (truncated power laws) len_low_rescaled = len_low / rescale — all eight analytic classes *)
 Definition gen_density (ora : nat -> list R -> R) (m : cls) (d : Z) (ls rs k : R) : R :=
   let O := Rops ora in let l := ls / rs in
   match m with
@@ -108,8 +143,10 @@ Definition gen_density (ora : nat -> list R -> R) (m : cls) (d : Z) (ls rs k : R
   | Exponential => Formulas_gen.Exponential_spectral_density O l (IZR d) k
   | Matern nu => Formulas_gen.Matern_spectral_density O l nu (IZR d) k
   | Integral nu => Formulas_gen.Integral_spectral_density O l (IZR d) nu k
+  | HyperSpherical => Formulas_gen.HyperSpherical_spectral_density O l (IZR d) k
   | JBessel nu => Formulas_gen.JBessel_spectral_density O l (IZR d) nu k
-  | _ => spectral_density O m d ls rs k
+  | TPLGaussian h low => Formulas_gen.TPLGaussian_spectral_density O (IZR d) l h (low / rs) k
+  | TPLExponential h low => Formulas_gen.TPLExponential_spectral_density O (IZR d) l h (low / rs) k
   end.
 Definition gen_cdf (ora : nat -> list R -> R) (m : cls (T:=R)) (d : Z) (ls rs r : R) : option R :=
   match m with
@@ -130,12 +167,15 @@ Section ClassTie.
 Variable ora : nat -> list R -> R.
 Lemma gen_density_tie m d ls rs k : gen_density ora m d ls rs k = spectral_density (Rops ora) m d ls rs k.
 Proof.
-  unfold gen_density, spectral_density, len_rescaled. rsimp. destruct m; try reflexivity.
+  unfold gen_density, spectral_density, len_rescaled. rsimp. destruct m.
   - apply Gaussian_spectral_density_tie.
   - apply Exponential_spectral_density_tie.
   - apply Matern_spectral_density_tie.
   - apply Integral_spectral_density_tie.
+  - apply HyperSpherical_spectral_density_tie.
   - apply JBessel_spectral_density_tie.
+  - apply TPLGaussian_spectral_density_tie.
+  - apply TPLExponential_spectral_density_tie.
 Qed.
 Lemma gen_cdf_tie m d ls rs r : gen_cdf ora m d ls rs r = spectral_rad_cdf (Rops ora) m d ls rs r.
 Proof.
@@ -153,13 +193,9 @@ Lemma gen_pdf_tie m d ls rs r : gen_pdf ora m d ls rs r = pdfR ora m d ls rs r.
 Proof. unfold gen_pdf, pdfR. rewrite rad_fac_tie, gen_density_tie. reflexivity. Qed.
 
 (* ---------- the C04 theorems about the generated definitions *)
-Theorem spectrum_scaling_gen m d ls rs k : translated m -> 0 < ls -> 0 < rs -> scal_ok m (ls / rs) k ->
-  gen_density ora m d ls rs k = Rpow (ls / rs) (IZR d) * gen_density ora m d 1 1 ((ls / rs) * k).
-Proof.
-  intros Ht Hl Hs Hok. rewrite !gen_density_tie.
-  replace m with (ref_cls m ls) at 2 by (destruct m; simpl in *; tauto).
-  apply spectrum_scaling; assumption.
-Qed.
+Theorem spectrum_scaling_gen m d ls rs k : 0 < ls -> 0 < rs -> scal_ok m (ls / rs) k ->
+  gen_density ora m d ls rs k = Rpow (ls / rs) (IZR d) * gen_density ora (ref_cls m ls) d 1 1 ((ls / rs) * k).
+Proof. intros Hl Hs Hok. rewrite !gen_density_tie. apply spectrum_scaling; assumption. Qed.
 
 Theorem cdf_derivative_gen ls rs m d : 0 < ls -> 0 < rs -> gamma_hyps ora ->
   elementary m d \/ (via_erf m d /\ erf_derive_hyp ora) ->
